@@ -161,6 +161,9 @@ def build(case):
             optxt = optxt.replace("{L}", bind[i])
         labels.append(lab)
         lines.append("{} {} {}".format(lab, mnem, optxt))
+    if variant == "dig":
+        import re as _re
+        lines = [_re.sub(r"\bL(\d)\b", lambda m: m.group(1) + "DIG", _re.sub(r"\bUNDEF\b", "9UNDEF", ln)) for ln in lines]
     return lines, labels
 
 
@@ -169,11 +172,14 @@ def cases(tier, seed):
     tags = [t[0] for t in T]
     # depth 1 and 2 over the full alphabet, both labelling variants
     for t in tags:
-        yield from programs_for((t,), ("all", "min"))
+        yield from programs_for((t,), ("all", "min", "dig"))
     for a in tags:
         for b in tags:
             yield from programs_for((a, b), ("all", "min"))
             yield {"tags": [a, b], "bind": [("L0" if "{L}" in TAGS[x][2] else None) for x in (a, b)], "variant": "dup"}
+    for a in CORE:
+        for b in CORE:
+            yield from programs_for((a, b), ("dig",))        # labels spelt 0DIG, 1DIG ...: a name may start with a digit
     core = CORE if tier == "quick" else tags
     for a in core:
         for b in core:
@@ -403,6 +409,8 @@ def check_case(case):
         return check_row(case)
     lines, labels = build(case)
     out = common.assemble_confirm(lines)
+    if case.get("variant") == "dig" and out["kind"] == "OK":
+        out = dict(out, symbols={("L" + k[0] if k.endswith("DIG") and k[:-3].isdigit() else k): v for k, v in out["symbols"].items()})
     v, st = evaluate(case, lines, labels, out)
     res = {"state": st if st.startswith("OK:") else st + ":" + ",".join(case["tags"]), "outcome": out["kind"],
            "nontrivial": st.startswith("OK:")}
